@@ -1,5 +1,6 @@
 (* C02 — String() is standard JSON that an independent decoder reads as the same data. *)
-From Anytype Require Import Base FloatBits Value GoInt Utf8 Json JsonDoc JsonRefProofs SerializeProofs FormatProofs.
+From Anytype Require Import Base FloatBits Value GoInt Utf8 Json JsonDoc JsonRefProofs SerializeProofs FormatProofs FloatText.
+From Anytype Require Import Equality Heap HeapExt HeapExtProofs CanonEq.
 From Anytype Require Import SourceTables SourceTablesProofs. From AnytypeGen Require Import GenTables.
 Local Open Scope Z_scope.
 Local Open Scope Z_scope.
@@ -10,7 +11,9 @@ Section C02.
   Variable pfloat : bytes -> option Z.
   Hypothesis F2 : forall b, is_finite b = true -> fbits_ok b = true -> exists n, parse_num_text (ser_float fmt_e fmt_f b) = Some n.
   Hypothesis F1 : forall b, is_finite b = true -> fbits_ok b = true -> pfloat (ser_float fmt_e fmt_f b) = Some b.
-  Hypothesis F4 : forall b, is_finite b = true -> fbits_ok b = true -> pint0 (ser_float fmt_e fmt_f b) = None.
+  (* F5: the 'e' format contains an 'e' or a '.'; that a float's text is never an integer literal follows (FloatText.ser_float_not_int) *)
+  Hypothesis F5 : forall b, is_finite b = true -> fbits_ok b = true -> In x65 (fmt_e b) \/ In x2e (fmt_e b).
+  Let F4 : forall b, is_finite b = true -> fbits_ok b = true -> pint0 (ser_float fmt_e fmt_f b) = None := ser_float_not_int fmt_e fmt_f F2 F5.
   Notation ser := (ser fmt_e fmt_f).
 
   (* [val_ok]: ints in range, floats finite, strings and keys valid UTF-8 (ANY code points), keys distinct; any depth and width.
@@ -63,6 +66,21 @@ Theorem C02_quote_table_generated :
   end.
 Proof. vm_compute. first [ exact I | repeat split; reflexivity ]. Qed.
 
+
+(* heap-level programs (HeapExt.v) compare what String()/FormatString()/NativeSlice()/NativeDict() return as the DATA they denote: the
+   container's value tree with the members of every object sorted by key ([vcanon (reify h r)], against the independent decoder's
+   result on the Go side). That canonical tree is well-formed, Equals the container's value in both directions, has sorted keys
+   everywhere and is a fixed point of canonicalisation *)
+Theorem C02_canonical_data_equals_the_container : forall v, wfb v = true -> nan_free v = true ->
+  veq (vcanon v) v = true /\ veq v (vcanon v) = true.
+Proof. exact vcanon_veq. Qed.
+Theorem C02_canonical_data_wf : forall v, wfb v = true -> wfb (vcanon v) = true.
+Proof. exact vcanon_wf. Qed.
+Theorem C02_canonical_data_sorted : forall v, keys_sorted (vcanon v).
+Proof. exact vcanon_sorted. Qed.
+Theorem C02_canonical_idempotent : forall v, vcanon (vcanon v) = vcanon v.
+Proof. exact vcanon_idem. Qed.
+
 Print Assumptions C02_valid_and_same_data.
 Print Assumptions C02_reference_decoder.
 Print Assumptions C02_decoder_decides_grammar.
@@ -72,3 +90,7 @@ Print Assumptions C02_quote.
 Print Assumptions C02_quote_denotes.
 Print Assumptions C02_quote_table_checker_sound.
 Print Assumptions C02_quote_table_generated.
+Print Assumptions C02_canonical_data_equals_the_container.
+Print Assumptions C02_canonical_data_wf.
+Print Assumptions C02_canonical_data_sorted.
+Print Assumptions C02_canonical_idempotent.
